@@ -82,8 +82,73 @@ impl Family for Options {
                 return Outcome { fail: Some(mismatch("repeated -G", expect.clone(), json!([first, second]))), nontrivial, key, rendered };
             }
         }
+        // (3) "the arguments reach the generator unchanged": for a sample of the accepted values the pairs are written
+        // again with the escaping function behind the paths of real (capturing) generators and the binary is run: first a
+        // generator that cannot be started, then two that can; what each of those reads on stdin is one identical
+        // request followed by exactly its own pairs, in order
+        if expect["res"] == "ok" && (key >> 5) % 8 == 0 {
+            if let Some(f) = generators_receive(expect, key) {
+                return Outcome { fail: Some(f), nontrivial, key, rendered };
+            }
+        }
         Outcome { fail: None, nontrivial, key, rendered }
     }
+}
+
+fn generators_receive(expect: &Value, key: u64) -> Option<Value> {
+    let pairs: Vec<(String, String)> = expect["args"]
+        .as_array()
+        .cloned()
+        .unwrap_or_default()
+        .iter()
+        .map(|a| {
+            let txt = |v: &Value| -> String { v.as_array().map(|x| x.iter().map(|c| class_to_char(c.as_str().unwrap_or("?"))).collect()).unwrap_or_default() };
+            (txt(&a["k"]), txt(&a["v"]))
+        })
+        .collect();
+    // a component that ends in a backslash cannot be written in front of a separator (the syntax cannot express it)
+    if pairs.iter().any(|(k, v)| k.ends_with('\\') || v.ends_with('\\')) {
+        return None;
+    }
+    let work = std::env::var("VERIF_WORK").unwrap_or_else(|_| "/verif/work".into());
+    let dir = std::path::PathBuf::from(format!("{work}/options-{}/{key}", std::process::id()));
+    let _ = std::fs::remove_dir_all(&dir);
+    std::fs::create_dir_all(&dir).ok()?;
+    std::fs::write(dir.join("x.slice"), "module M\nstruct S { a: int32 }\n").ok()?;
+    let written = |p: &[(String, String)]| -> String { p.iter().map(|(k, v)| format!(",{}={}", escape(k), escape(v))).collect() };
+    // the second working generator gets the pairs in reverse order plus one of its own
+    let mut other: Vec<(String, String)> = pairs.iter().rev().cloned().collect();
+    other.push(("own".to_owned(), "2".to_owned()));
+    let mut argv: Vec<String> = vec!["x.slice".into(), "--diagnostic-format".into(), "json".into()];
+    argv.extend(["-G".into(), format!("{}/no-such-generator{}", dir.display(), written(&pairs))]);
+    for (name, p) in [("gen1", &pairs), ("gen2", &other)] {
+        let g = dir.join(name);
+        if std::fs::hard_link(crate::fam_driver::fakegen_bin(), &g).is_err() {
+            let _ = std::fs::copy(crate::fam_driver::fakegen_bin(), &g);
+        }
+        let _ = std::fs::write(dir.join(format!("{name}.json")), json!({"beh": "ok0", "index": 1}).to_string());
+        argv.extend(["-G".into(), format!("{}{}", g.display(), written(p))]);
+    }
+    let res = crate::fam_driver::run_limited(std::process::Command::new(crate::fam_driver::slicec_bin()).args(&argv).current_dir(&dir), std::time::Duration::from_secs(20));
+    let read = |name: &str| std::fs::read(dir.join(format!("{name}.stdin"))).ok();
+    let (one, two) = (read("gen1"), read("gen2"));
+    let fail = (|| {
+        let (Some(one), Some(two)) = (one, two) else {
+            return Some(json!({"kind": "mismatch", "what": "a generator listed after one that cannot be started was not run (or got nothing)",
+                               "exit": format!("{:?}", res.status), "stderr": String::from_utf8_lossy(&res.stderr).chars().take(400).collect::<String>()}));
+        };
+        let (own1, own2) = (crate::fam_driver::encode_args(&pairs), crate::fam_driver::encode_args(&other));
+        if !one.ends_with(&own1) || !two.ends_with(&own2) {
+            return Some(mismatch("the pairs a generator reads behind the request (exactly those written for it, in order)", json!({"gen1": pairs, "gen2": other}),
+                                 json!({"gen1_tail": one[one.len().saturating_sub(own1.len() + 8)..].to_vec(), "gen2_tail": two[two.len().saturating_sub(own2.len() + 8)..].to_vec()})));
+        }
+        if one[..one.len() - own1.len()] != two[..two.len() - own2.len()] || one.len() == own1.len() {
+            return Some(json!({"kind": "mismatch", "what": "the two generators did not receive one identical request in front of their arguments", "lengths": [one.len() - own1.len(), two.len() - own2.len()]}));
+        }
+        None
+    })();
+    let _ = std::fs::remove_dir_all(&dir);
+    fail
 }
 
 // ---------------------------------------------------------------------------------------------------------------------
